@@ -264,6 +264,7 @@ public:
       rest -= k;
     }
     if (hdr[0] != tag) return -1;
+    if (len > buf_len) return -1;                   // as MPI_Recv: a message longer than the buffer is an error (MPI_ERR_TRUNCATE)
     return keep;
   }
   int replica_comm_send(char *msg_data, int msg_len, int dest_rep) override
